@@ -10,8 +10,12 @@ EXPLANATION = ("for every OptionValueU8/16/32/64 conversion pair: the byte width
                "input is longer than the width, and make the narrowing cast lossless; encoding is analysed for an "
                "arbitrary value of the type (drain loop unrolled) and must be panic-free, give the empty vector for 0 "
                "and a one-byte vector for values below 256; string conversions must be String::into_bytes / from_utf8; "
-               "typed accessors on Packet reach the raw accessors with their own option number")
-NOT_DECIDED = "Not decided: that multi-byte output is big-endian without a leading zero (loop-carried data)."
+               "typed accessors on Packet reach the raw accessors with their own option number.  C06.8: per path of the unrolled "
+               "encoder the pushed bytes (vector construction history) carry value bits 8(n-1-i)..+7 (known-bits provenance), the value "
+               "is entailed < 256^n and >= 256^(n-1): shortest big-endian.  C06.9: per admissible length the decoder's result is the "
+               "affine form sum 256^(n-1-k) byte_k.  C06.7: set/get_observe_value hand the number over unchanged")
+NOT_DECIDED = ("Not decided: UTF-8 handling beyond delegation to String::from_utf8 / into_bytes; element order of the list-valued "
+               "typed accessors beyond reaching the raw accessors (C19.6 covers the iterators).")
 ASSUMPTIONS = []
 
 TYPES = [("option_value::OptionValueU8", 8), ("option_value::OptionValueU16", 16),
@@ -97,6 +101,100 @@ def check(env, rep, tier):
                                "%s: a value in [%d, %d] is not shown to encode to exactly %d byte(s)" % (body["path"], lo, hi, want),
                                {"file": body["span"]["f"], "line": body["span"]["l"], "fn": body["path"]},
                                sample={"rule": "C06.4", "type": tname, "class": [lo, hi], "bytes": want, "ok": okv})
+        # ---- C06.8 content of the multi-byte encoding: per path of the (unrolled) encoder the pushed bytes are
+        #      read back from the vector's construction history; byte i of n must carry value bits 8(n-1-i)..+7,
+        #      nothing above 256^n may be dropped and the leading byte is non-zero (value >= 256^(n-1))
+        import bitprov
+        for tname, bits in TYPES:
+            enc = find_impl_fn(prog, "core::convert::From", "alloc::vec::Vec<u8>", tname, "from")
+            if enc is None:
+                continue
+            I = new_interp(prog)
+            I.no_join_bodies.add(enc["id"])
+            I.no_join_prefixes = ("option_value::",)
+            st = State()
+            v = I.mat(st, prog.ty(enc["locals"][1]["ty"]), "value")
+            inner = v.fields[0] if isinstance(v, StructV) else None
+            if isinstance(inner, TopV):
+                inner = I.mat(st, inner.ty, "value.0")
+                v = StructV([inner])
+            if not isinstance(inner, IntV):
+                continue
+            vsym = bitprov.sym_of(inner)
+            I, res = run(prog, enc, args=[v], st=st, I=I)
+            lens, bad = set(), []
+            for s_, rv in res:
+                if not (isinstance(rv, VecV) and rv.len.is_const()):
+                    bad.append("result length not tracked")
+                    continue
+                n = rv.len.c
+                if n < 2:
+                    continue
+                lens.add(n)
+                elems, t, rev = [], rv.tag, False
+                while isinstance(t, tuple) and t and t[0] in ("reverse", "pushed"):
+                    if t[0] == "reverse":
+                        rev = not rev
+                    else:
+                        elems.append(t[2])
+                    t = t[1]
+                elems.reverse()          # push order
+                if rev:
+                    elems.reverse()
+                if len(elems) != n or not (isinstance(t, tuple) and t and t[0] == "new"):
+                    bad.append("the bytes of a %d-byte encoding are not all tracked" % n)
+                    continue
+                for i, e in enumerate(elems):
+                    eb = bitprov.resolve_bits(I, s_, e) if isinstance(e, IntV) else None
+                    want = {j: 8 * (n - 1 - i) + j for j in range(8) if 8 * (n - 1 - i) + j < bits}
+                    if eb is None or bitprov.field_of(eb, vsym) != want or any(b != 0 and not (isinstance(b, tuple) and b[1] == vsym) for b in eb):
+                        bad.append("byte %d of a %d-byte encoding is not bits %d..%d of the value (byte order / shift)" % (i, n, 8 * (n - 1 - i), 8 * (n - 1 - i) + 7))
+                        break
+                if n * 8 < bits and not s_.entails(Aff.const((1 << (8 * n)) - 1) - inner.aff):
+                    bad.append("a %d-byte encoding is produced for a value not shown below 256^%d (high bytes dropped)" % (n, n))
+                if not s_.entails(inner.aff - (1 << (8 * (n - 1)))):
+                    bad.append("a %d-byte encoding is produced for a value not shown >= 256^%d (leading zero byte)" % (n, n - 1))
+            want_lens = set(range(2, bits // 8 + 1))
+            if bits > 8:
+                rep.ob("C06.8", "%s|big-endian-shortest" % tname, not bad and lens == want_lens,
+                       "%s: %s (multi-byte lengths reached: %s, expected %s)" % (enc["path"], "; ".join(sorted(set(bad))[:2]) or "length classes differ",
+                                                                                  sorted(lens), sorted(want_lens)),
+                       {"file": enc["span"]["f"], "line": enc["span"]["l"], "fn": enc["path"]},
+                       sample={"rule": "C06.8", "type": tname, "lengths": sorted(lens)})
+        # ---- C06.9 content of the decoding: per admissible length n the fold (unrolled by the model, items are
+        #      fresh byte symbols created in iteration order) yields  sum 256^(n-1-k) * byte_k
+        for tname, bits in TYPES:
+            dec = find_impl_fn(prog, "core::convert::TryFrom", tname, "alloc::vec::Vec<u8>", "try_from")
+            if dec is None:
+                continue
+            I = new_interp(prog)
+            I.no_join_bodies.add(dec["id"])
+            I.no_join_prefixes = ("option_value::",)
+            st = State()
+            arg = I.mat(st, prog.ty(dec["locals"][1]["ty"]), "value")
+            I, res = run(prog, dec, args=[arg], st=st, I=I)
+            lens, bad = set(), []
+            for s_, rv in res:
+                if not (isinstance(rv, EnumV) and list(rv.variants) == [0] and isinstance(arg, VecV)):
+                    continue
+                lo, hi = s_.range(arg.len)
+                x = rv.variants[0].fields[0]
+                if isinstance(x, StructV) and x.fields:
+                    x = x.fields[0]
+                if lo != hi or not isinstance(x, IntV):
+                    bad.append("the decoded number is not tracked per input length")
+                    continue
+                n = lo
+                lens.add(n)
+                syms = sorted(x.aff.t, key=lambda t: int(str(t[0]).rsplit("#", 1)[-1]) if "#" in str(t[0]) else 0)
+                coeffs = [k for _, k in syms]
+                okb = all(s_.bounds.get(sy, (None, None)) == (0, 255) for sy, _ in syms)
+                if x.aff.c != 0 or coeffs != [256 ** (n - 1 - k) for k in range(n)] or not okb:
+                    bad.append("for a %d-byte input the number is %s, not the big-endian value of the bytes" % (n, norm(x.aff)))
+            rep.ob("C06.9", "%s|big-endian-decode" % tname, not bad and lens == set(range(0, bits // 8 + 1)),
+                   "%s: %s (lengths accepted: %s, expected 0..%d)" % (dec["path"], "; ".join(sorted(set(bad))[:2]) or "length classes differ", sorted(lens), bits // 8),
+                   {"file": dec["span"]["f"], "line": dec["span"]["l"], "fn": dec["path"]},
+                   sample={"rule": "C06.9", "type": tname, "lengths": sorted(lens)})
         rep.floor("C06.1", "uint option value types", n_pairs, 4)
         # ---- C06.5 strings
         for tr, self_s, arg_s, name, want in (
@@ -139,3 +237,53 @@ def check(env, rep, tier):
             ok = len(seen) >= 1 and all(x == args[1] for x in seen)
             rep.ob("C06.6", entry, ok, "%s does not reach %s with its own option number" % (entry, raw),
                    {"file": b["span"]["f"], "line": b["span"]["l"], "fn": entry})
+
+        # ---- C06.7 the numeric convenience accessors hand the number over unchanged
+        b = find_body(prog, "packet::Packet::set_observe_value")
+        g = find_body(prog, "packet::Packet::get_observe_value")
+        if b is None or g is None:
+            rep.missing("C06.7", "Packet::set_observe_value / get_observe_value")
+        else:
+            I = new_interp(prog)
+            I.max_depth = 0
+            st = State()
+            args = [I.mat(st, prog.ty(b["locals"][i + 1]["ty"]), "a%d" % i) for i in range(b["arg_count"])]
+            seen = []
+
+            def hook(I_, s_, call, cbody, seen=seen):
+                if call.path in ("packet::Packet::add_option_as", "packet::Packet::set_options_as") and call.ctx.depth == 0:
+                    v = call.args[2] if len(call.args) > 2 else None
+                    seen.append(v.fields[0] if isinstance(v, StructV) and v.fields else v)
+            I.call_hooks.append(hook)
+            I, res = run(prog, b, args=args, st=st, I=I)
+            ok = bool(seen) and isinstance(args[1], IntV) and all(isinstance(x, IntV) and x.aff == args[1].aff for x in seen)
+            rep.ob("C06.7", "set_observe_value", ok,
+                   "set_observe_value does not hand its argument unchanged to the typed setter (a masked, shifted or truncated "
+                   "number is stored, so the stored bytes are not the encoding of the value given)",
+                   {"file": b["span"]["f"], "line": b["span"]["l"], "fn": b["path"]}, sample={"rule": "C06.7", "typed_writes": len(seen)})
+            I = new_interp(prog)
+            st = State()
+            args = [I.mat(st, prog.ty(g["locals"][1]["ty"]), "self")]
+            inj = []
+
+            def m_get(I_, s_, call, inj=inj):
+                from summaries import mk_ok, mk_option
+                x = I_.fresh_int(s_, "stored", (32, False), 0, (1 << 32) - 1)
+                inj.append(x)
+                return [(s_, mk_option(I_, mk_ok(StructV([x]), None), call.dest_ty))]
+            I.extra_models["packet::Packet::get_first_option_as"] = m_get
+            I, res = run(prog, g, args=args, st=st, I=I)
+            ok = bool(inj) and bool(res)
+            for s_, rv in res:
+                v = rv
+                for want in (1, 0):
+                    if isinstance(v, EnumV) and list(v.variants) == [want] and isinstance(v.variants[want], StructV):
+                        v = v.variants[want].fields[0]
+                    else:
+                        v = None
+                        break
+                if not (isinstance(v, IntV) and inj and v.aff == inj[-1].aff):
+                    ok = False
+            rep.ob("C06.7", "get_observe_value", ok,
+                   "get_observe_value does not return the decoded number unchanged",
+                   {"file": g["span"]["f"], "line": g["span"]["l"], "fn": g["path"]})
